@@ -176,7 +176,11 @@ def main(chk, replay=None):
                 ch = render_form(form)
                 call = lambda fo: FlowCal.gate.ellipse(x, ch, center=[cx, cy], a=a, b=b, theta=0, full_output=fo)   # noqa
                 label = 'ellipse/%s/%dch' % (kind, len(form['xs']))
+            before = (np.asarray(x.view(np.ndarray)).tobytes(), repr(meta_of(x)))
             lab, obs = judge(call, x, exp)
+            if (np.asarray(x.view(np.ndarray)).tobytes(), repr(meta_of(x))) != before:
+                lab = 'input-changed'
+                C.cache.clear()
             if not neg and exp['k'] == 'ok' and len(exp['mask']) >= 1 and lab is None:
                 bad = {'k': 'ok', 'mask': [not exp['mask'][0]] + list(exp['mask'][1:])}
                 chk.negative_control(judge(call, x, bad)[0] is not None, 'C08 comparator accepts a flipped mask bit')
